@@ -1829,7 +1829,9 @@ func coverageFloors(n int) {
 	if n < 500 || hangs > 0 || run.OracleFails > 0 {
 		return
 	}
-	need := map[string]int{"op:delete": n / 4, "op:gc": n / 4, "op:tag": n / 2, "op:push": 2 * n, "op:stray": n / 20, "repetitions": n / 2}
+	need := map[string]int{"op:delete": n / 4, "op:gc": n / 4, "op:tag": n / 2, "op:push": 2 * n, "op:stray": n / 20, "repetitions": n / 2,
+		"gc-cancel:in-sweep": n / 50, "gc-cancel:before-rebuild": n / 100, "gc-cancel:completed": n / 100,
+		"op:autosave": n / 20, "op:saveindex": n / 50}
 	if keepLiveDigests {
 		need["op:reopen"] = n / 20
 	}
